@@ -15,6 +15,7 @@ import (
 	"path/filepath"
 	"reflect"
 	"sync"
+	"sync/atomic"
 	"time"
 
 	"github.com/notaryproject/notation-core-go/signature"
@@ -32,6 +33,7 @@ func init() { drivers["notation-sign"] = runNotationSign }
 type SignCall struct {
 	Ref  string `json:"ref"`
 	Meta string `json:"meta"`
+	Opt  string `json:"opt"`
 }
 
 type SignIn struct {
@@ -51,6 +53,7 @@ type SignCallObs struct {
 	Pushed     int  `json:"pushed"`
 	ArtSame    bool `json:"artSame"`
 	CallerSame bool `json:"callerSame"`
+	Asked      bool `json:"asked"` // the repository was asked to resolve something during the call
 }
 
 type SignObs struct {
@@ -87,9 +90,10 @@ func copyMap(m map[string]string) map[string]string {
 
 // in-memory repository handing out the SAME descriptor value (same annotation map) on every Resolve
 type sharedRepo struct {
-	mu     sync.Mutex
-	desc   ocispec.Descriptor
-	pushes []pushRec
+	mu       sync.Mutex
+	desc     ocispec.Descriptor
+	pushes   []pushRec
+	resolves int32
 }
 
 type pushRec struct {
@@ -100,6 +104,7 @@ type pushRec struct {
 }
 
 func (r *sharedRepo) Resolve(ctx context.Context, reference string) (ocispec.Descriptor, error) {
+	atomic.AddInt32(&r.resolves, 1)
 	return r.desc, nil
 }
 func (r *sharedRepo) ListSignatures(ctx context.Context, desc ocispec.Descriptor, fn func([]ocispec.Descriptor) error) error {
@@ -119,8 +124,14 @@ func (r *sharedRepo) PushSignature(ctx context.Context, mediaType string, blob [
 // recording wrapper around a real repository
 type recRepo struct {
 	registry.Repository
-	mu     sync.Mutex
-	pushes []pushRec
+	mu       sync.Mutex
+	pushes   []pushRec
+	resolves int32
+}
+
+func (r *recRepo) Resolve(ctx context.Context, reference string) (ocispec.Descriptor, error) {
+	atomic.AddInt32(&r.resolves, 1)
+	return r.Repository.Resolve(ctx, reference)
 }
 
 func (r *recRepo) PushSignature(ctx context.Context, mediaType string, blob []byte, subject ocispec.Descriptor, annotations map[string]string) (ocispec.Descriptor, ocispec.Descriptor, error) {
@@ -368,16 +379,42 @@ func runNotationSign() int {
 			}
 			var serr error
 			var retArt ocispec.Descriptor
+			// the signing options of this call: usable, or unusable in one way
+			sopts := notation.SignerSignOptions{SignatureMediaType: mediaTypeOf(format), PluginConfig: pluginCfg}
+			callSigner, callRepo := theSigner, repo
+			switch call.Opt {
+			case "negExpiry":
+				sopts.ExpiryDuration = -time.Hour
+			case "subSecondExpiry":
+				sopts.ExpiryDuration = 90*time.Minute + 500*time.Millisecond
+			case "emptyMediaType":
+				sopts.SignatureMediaType = ""
+			case "unknownMediaType":
+				sopts.SignatureMediaType = []string{"application/pgp-signature", "application/JOSE+json", "application/jose+json ", "application/cose "}[mix(*flagSeed, c.ID, "mt")%4]
+			case "nilSigner":
+				callSigner = nil
+			case "nilRepo":
+				callRepo = nil
+			}
+			var resolvesBefore int32
+			if mem != nil {
+				resolvesBefore = atomic.LoadInt32(&mem.resolves)
+			} else {
+				resolvesBefore = atomic.LoadInt32(&disk.resolves)
+			}
 			panicked, msg := guarded(func() {
-				retArt, _, serr = notation.SignOCI(ctx, theSigner, repo, notation.SignOptions{
-					SignerSignOptions: notation.SignerSignOptions{SignatureMediaType: mediaTypeOf(format), PluginConfig: pluginCfg},
-					ArtifactReference: ref, UserMetadata: meta})
+				retArt, _, serr = notation.SignOCI(ctx, callSigner, callRepo, notation.SignOptions{SignerSignOptions: sopts, ArtifactReference: ref, UserMetadata: meta})
 			})
 			if panicked {
 				obs.Panic, obs.Note = true, msg
 				break
 			}
 			co := SignCallObs{OK: serr == nil, SignedOK: true, SubjectOK: true, AnnOK: true}
+			if mem != nil {
+				co.Asked = atomic.LoadInt32(&mem.resolves) > resolvesBefore
+			} else {
+				co.Asked = atomic.LoadInt32(&disk.resolves) > resolvesBefore
+			}
 			if serr != nil {
 				obs.Note = serr.Error()
 			}
